@@ -36,12 +36,34 @@ func VerifCrashTrace() []string {
 	return append([]string{}, verifCrashTrace...)
 }
 
+// VerifAtPoint arms an in-process callback (forced schedules: a writer that commits between two steps of
+// another operation, C12): f runs once, on the calling goroutine, at the n-th hit of the point.
+func VerifAtPoint(name string, hit int, f func()) {
+	verifCrashMu.Lock()
+	defer verifCrashMu.Unlock()
+	verifAtName, verifAtHit, verifAtFn = name, hit, f
+	verifCrashAt = ""
+	verifCrashHits = map[string]int{}
+	verifCrashTrace = nil
+}
+
+var verifAtName string
+var verifAtHit int
+var verifAtFn func()
+
 func verifCrashPoint(name string) {
 	verifCrashMu.Lock()
 	verifCrashTrace = append(verifCrashTrace, name)
 	verifCrashHits[name]++
 	die := name == verifCrashAt && verifCrashHits[name] == verifCrashHit
+	var cb func()
+	if verifAtFn != nil && name == verifAtName && verifCrashHits[name] == verifAtHit {
+		cb, verifAtFn = verifAtFn, nil
+	}
 	verifCrashMu.Unlock()
+	if cb != nil {
+		cb()
+	}
 	if die {
 		_ = syscall.Kill(os.Getpid(), syscall.SIGKILL)
 		select {} // never continue past the point
